@@ -11,7 +11,7 @@ CHUNK_RULE = ("chunk: library op sequences (messages biased to repeat type/strea
               "constant-step/decreasing/wrapping/extended, payloads around multiples of the chunk size incl. 0, force/droppable flags, "
               "chunk-size changes incl. refused values) through the real serializer (ser), real serializer -> drop mask -> real deserializer "
               "under whole/byte-wise/fixed/random partitions (rt, exhaustive masks for <= 6 droppable packets), foreign streams from an "
-              "independent Python spec encoder with 1/2/3-byte csids, all legal format choices, interleaving (fde), mutated/random streams (de); "
+              "independent Python spec encoder with 1/2/3-byte csids, all legal format choices, interleaving (fde / ide), mutated/random streams (de); "
               "non-trivial = at least two tokens after the op")
 
 HS_RULE = ("hs: one Handshake object per case (role, pinned random source via hook H1) fed the bytes of a peer played by an independent Python reference "
@@ -74,7 +74,7 @@ PROPS = {
                     "partitions (whole, byte-wise, fixed 2..1000, random); non-trivial = longer than 40 characters",
             "explanation": "oracles C15.deserializer_partition_independent (same message sequence and same error) and C15.session_partition_independent (same results per operation modulo AMF0 object order; on an error both fail at the same operation with prefix-comparable deliveries)"},
     "C16": {"components": ["chunk"], "rule": CHUNK_RULE,
-            "explanation": "oracle C06.foreign_stream restricted to interleaved streams (every second fde case)"},
+            "explanation": "oracle C16.interleaved_streams: real deserializer on streams of the independent encoder with messages of distinct chunk streams interleaved chunk by chunk (op ide) = each message intact, in completion order"},
     "C04": {"components": ["amf0"], "rule": AMF0_RULE,
             "explanation": "oracle C04.roundtrip: the real decoder applied to the real encoder's bytes returns the canonical input, consuming all bytes; C04.error_only_when_inexpressible"},
     "C12": {"components": ["amf0"], "rule": AMF0_RULE,
